@@ -5,8 +5,33 @@ namespace Tars
 namespace Evolve
 open Consts WFField Skip
 
-/-- what `ResetDefault` leaves in one member: the explicit default if there is one; otherwise a
-    nested struct is reset recursively and every other member gets its Go zero value -/
+def isStructTy : Ty → Bool
+  | .struct _ => true
+  | _ => false
+
+/-- a fixed-size array of structs (`S x[N]`) -/
+def isArrStructTy : Ty → Bool
+  | .arr _ (.struct _) => true
+  | _ => false
+
+/-- the value `ResetDefault` assigns to a member that is not a struct, whatever it held: the
+    explicit IDL default if there is one; otherwise, for a fixed-size array of structs, `n` copies
+    of the struct after its own `ResetDefault` (`st.X = [N]S{}; for i := range st.X {
+    st.X[i].ResetDefault() }`); otherwise the Go zero value of the type -/
+def defaultOf (env : Env) (fuel : Nat) (f : Field) : Val :=
+  match f.dflt with
+  | some d => d
+  | none =>
+    match f.ty with
+    | .arr n (.struct s) =>
+      match env.find s with
+      | some ifs =>
+        Val.list (List.replicate n (Val.struct (resetDefault env fuel ifs (ifs.map fun g => zeroOf env g.ty))))
+      | none => zeroOf env f.ty
+    | t => zeroOf env t
+
+/-- what `ResetDefault` leaves in one member: a nested struct without explicit default is reset
+    recursively; every other member gets `defaultOf` -/
 def resetMember (env : Env) (fuel : Nat) (f : Field) (v : Val) : Val :=
   match f.dflt with
   | some d => d
@@ -19,6 +44,11 @@ def resetMember (env : Env) (fuel : Nat) (f : Field) (v : Val) : Val :=
         | some ifs => .struct (resetDefault env fuel ifs inner)
         | none => v
       | _, _ => v
+    | .arr n (.struct s) =>
+      match env.find s with
+      | some ifs =>
+        Val.list (List.replicate n (Val.struct (resetDefault env fuel ifs (ifs.map fun g => zeroOf env g.ty))))
+      | none => zeroOf env f.ty
     | t => zeroOf env t
 
 theorem resetDefault_cons (env : Env) (F : Nat) (f : Field) (fs : List Field) (v : Val) (vs : List Val) :
@@ -71,8 +101,16 @@ def listDepth : List Val → Nat
   | v :: vs => max (valDepth v) (listDepth vs)
 end
 
+/-- no struct of the schema has a fixed-size array of structs as a member (for such members the
+    value `ResetDefault` assigns involves a nested `ResetDefault` on zero values, whose model fuel
+    is not bounded by the nesting of the target) -/
+def NoStructArrays (env : Env) : Prop :=
+  ∀ s ifs, env.find s = some ifs → ∀ g ∈ ifs, isArrStructTy g.ty = false
+
 theorem resetMember_fuel (env : Env) (F G : Nat) (f : Field) (v : Val)
-    (ih : ∀ ifs inner, v = .struct inner → resetDefault env F ifs inner = resetDefault env G ifs inner) :
+    (hna : isArrStructTy f.ty = false)
+    (ih : ∀ name ifs inner, f.ty = .struct name → env.find name = some ifs → v = .struct inner →
+      resetDefault env F ifs inner = resetDefault env G ifs inner) :
     resetMember env F f v = resetMember env G f v := by
   unfold resetMember
   cases f.dflt with
@@ -81,20 +119,24 @@ theorem resetMember_fuel (env : Env) (F G : Nat) (f : Field) (v : Val)
     simp only
     split
     · split
-      · next name inner _ =>
+      · next _ name inner hn =>
         cases hfind : env.find name with
         | none => rfl
-        | some ifs => simp only; rw [ih ifs inner rfl]
+        | some ifs => simp only; rw [ih name ifs inner hn hfind rfl]
       · rfl
+    · next hty => rw [hty] at hna; simp [isArrStructTy] at hna
     · rfl
 
-theorem resetDefault_fuel (env : Env) (F : Nat) :
-    ∀ (F' : Nat) (fs : List Field) (vs : List Val), listDepth vs < F → listDepth vs < F' →
+/-- for a schema without arrays of structs, `ResetDefault` is independent of the model fuel once
+    it exceeds the struct nesting of the target -/
+theorem resetDefault_fuel (env : Env) (hna : NoStructArrays env) (F : Nat) :
+    ∀ (F' : Nat) (fs : List Field) (vs : List Val), (∀ g ∈ fs, isArrStructTy g.ty = false) →
+      listDepth vs < F → listDepth vs < F' →
       resetDefault env F fs vs = resetDefault env F' fs vs := by
   induction F with
-  | zero => intro F' fs vs h; omega
+  | zero => intro F' fs vs _ h; omega
   | succ F ihF =>
-    intro F' fs vs h h'
+    intro F' fs vs hfs h h'
     obtain ⟨G, rfl⟩ : ∃ G, F' = G + 1 := ⟨F' - 1, by omega⟩
     induction fs generalizing vs with
     | nil => rw [resetDefault_nil_left, resetDefault_nil_left]
@@ -103,13 +145,14 @@ theorem resetDefault_fuel (env : Env) (F : Nat) :
       | nil => rw [resetDefault_nil_right, resetDefault_nil_right]
       | cons v vs =>
         simp only [listDepth] at h h'
-        rw [resetDefault_cons, resetDefault_cons, ih vs (by omega) (by omega)]
+        rw [resetDefault_cons, resetDefault_cons,
+          ih vs (fun g hg => hfs g (by simp [hg])) (by omega) (by omega)]
         congr 1
-        apply resetMember_fuel
-        intro ifs inner hv
+        apply resetMember_fuel env F G f v (hfs f (by simp))
+        intro name ifs inner _ hfind hv
         subst hv
         simp only [valDepth] at h h'
-        exact ihF G ifs inner (by omega) (by omega)
+        exact ihF G ifs inner (hna name ifs hfind) (by omega) (by omega)
 
 /-! ### the reader state at each member -/
 
@@ -215,23 +258,43 @@ theorem decMembers_missing_req (env : Env) (fuel : Nat) (fs : List Field) (olds 
 
 /-! ### `ReadFrom` on a whole struct -/
 
-def isStructTy : Ty → Bool
-  | .struct _ => true
-  | _ => false
-
 theorem resetMember_dflt (env : Env) (F : Nat) (f : Field) (v d : Val) (h : f.dflt = some d) :
     resetMember env F f v = d := by simp [resetMember, h]
 
-/-- a member without explicit default that is not a struct is set to its Go zero value, whatever
-    it held before -/
-theorem resetMember_plain (env : Env) (F : Nat) (f : Field) (v : Val) (h : f.dflt = none)
-    (hty : isStructTy f.ty = false) : resetMember env F f v = zeroOf env f.ty := by
-  unfold resetMember
+/-- a member that is not a struct is assigned `defaultOf`, whatever it held before -/
+theorem resetMember_nonstruct (env : Env) (F : Nat) (f : Field) (v : Val)
+    (hty : isStructTy f.ty = false) : resetMember env F f v = defaultOf env F f := by
+  obtain ⟨tag, req, ty, dflt⟩ := f
+  unfold resetMember defaultOf
+  cases dflt with
+  | some d => rfl
+  | none =>
+    cases ty with
+    | struct name => simp [isStructTy] at hty
+    | arr n e => cases e <;> rfl
+    | _ => rfl
+
+theorem defaultOf_dflt (env : Env) (F : Nat) (f : Field) (d : Val) (h : f.dflt = some d) :
+    defaultOf env F f = d := by simp [defaultOf, h]
+
+/-- no explicit default and not an array of structs: the Go zero value -/
+theorem defaultOf_plain (env : Env) (F : Nat) (f : Field) (h : f.dflt = none)
+    (hty : isArrStructTy f.ty = false) : defaultOf env F f = zeroOf env f.ty := by
+  unfold defaultOf
   rw [h]
   simp only
   split
-  · simp_all [isStructTy]
+  · simp_all [isArrStructTy]
   · rfl
+
+/-- no explicit default, array of structs: `n` copies of the struct after `ResetDefault` -/
+theorem defaultOf_arr (env : Env) (F : Nat) (f : Field) (n : Nat) (s : String) (ifs : List Field)
+    (h : f.dflt = none) (hty : f.ty = .arr n (.struct s)) (hfind : env.find s = some ifs) :
+    defaultOf env F f = .list (List.replicate n
+      (.struct (resetDefault env F ifs (ifs.map fun g => zeroOf env g.ty)))) := by
+  unfold defaultOf
+  rw [h, hty]
+  simp [hfind]
 
 theorem resetMember_struct (env : Env) (F : Nat) (f : Field) (name : String) (inner : List Val)
     (ifs : List Field) (h : f.dflt = none) (hty : f.ty = .struct name) (hfind : env.find name = some ifs) :
